@@ -281,6 +281,10 @@ def run_harness(sub, lines, env=None, exe=None, chunk=None, timeout=600, isolate
         rc, out, err = _run_chunk((exe, sub, ls, env, timeout))
         if rc == 0 and len(out) == len(ls):
             return [(i0 + k, out[k]) for k in range(len(ls))]
+        if rc == 3 and out and len(out) <= len(ls) and out[-1].startswith("HANG"):
+            # the worker abandoned a call that was still running and stopped; resume after it
+            done = [(i0 + k, out[k]) for k in range(len(out))]
+            return done + (work((i0 + len(out), ls[len(out):])) if len(out) < len(ls) else [])
         if len(ls) == 1:
             tag = "TIMEOUT" if rc == 124 else "CRASH"
             return [(i0, tag + ":" + hx(err[-600:]))]
